@@ -44,18 +44,52 @@ Section T.
     cbn [length firstn]. constructor; [exact He|apply IH; exact H].
   Qed.
 
+  (* ---- fix F17: list lengths *)
+  Theorem spok_accepts_lengths p ck pk bases rmsgs U nsm :
+    spok_verify CS BP p ck pk bases rmsgs U nsm = Ok true ->
+    length (sp_s5 (pk_spok p)) = length U /\ length (pk_pmi p) = length U /\ length (pk_rpmi p) = length U.
+  Proof.
+    intros H. unfold spok_verify in H.
+    destruct (nisp5_verify (pk_spok p) ck pk bases rmsgs U nsm) as [b0| | |] eqn:E5; cbn [bind] in H; try discriminate.
+    destruct b0; cbn [negb] in H; [|discriminate].
+    destruct (Nat.eqb_spec (length (pk_pmi p)) (length U)) as [L1|]; cbn [andb negb] in H; [|discriminate].
+    destruct (Nat.eqb_spec (length (pk_rpmi p)) (length U)) as [L2|]; cbn [negb] in H; [|discriminate].
+    split; [|split; assumption].
+    unfold nisp5_verify in E5. destruct (Nat.ltb (length bases) nsm && Nat.ltb (length (ck_g ck)) nsm)%bool; [discriminate|].
+    destruct (Nat.eqb_spec (length (sp_s5 (pk_spok p))) (length U)) as [L0|]; cbn [negb] in E5; [exact L0|discriminate].
+  Qed.
+
+  Theorem zkpok_accepts_lengths p C Ct pk bases ck U :
+    zkpok_verify CS BP p C Ct pk bases ck U = Ok true ->
+    length (zk_pmi p) = length U /\ length (zk_rpmi p) = length U.
+  Proof.
+    intros H. unfold zkpok_verify in H.
+    destruct (match Ct, ck with
+              | Some ct, Some k => let* tp := unwrap (zk_trusted p) in nisp2_verify tp C ct pk bases k U
+              | _, _ => Ok true end) as [bt| | |]; cbn [bind] in H; try discriminate.
+    destruct bt; cbn [negb] in H; [|discriminate].
+    destruct (nispm_verify (zk_msgs p) C pk bases (Some U)) as [bm| | |]; cbn [bind] in H; try discriminate.
+    destruct bm; cbn [negb] in H; [|discriminate].
+    destruct (Nat.eqb_spec (length (zk_pmi p)) (length U)) as [L1|]; cbn [andb negb] in H; [|discriminate].
+    destruct (Nat.eqb_spec (length (zk_rpmi p)) (length U)) as [L2|]; cbn [negb] in H; [|discriminate].
+    split; assumption.
+  Qed.
+
   (* ---- F15: nothing else ties the pairs *)
   Definition with_subproofs (p : clpok) (pmi : list pov) (rpmi : list boudot) : clpok :=
     {| pk_spok := pk_spok p; pk_rpe := pk_rpe p; pk_pmi := pmi; pk_rpmi := rpmi |}.
 
   Theorem spok_subproofs_untied p ck pk bases rmsgs U nsm pmi' rpmi' :
     spok_verify CS BP p ck pk bases rmsgs U nsm = Ok true ->
+    length pmi' = length U -> length rpmi' = length U ->
     spok_verify_loop CS BP ck U pmi' rpmi' = Ok true ->
     spok_verify CS BP (with_subproofs p pmi' rpmi') ck pk bases rmsgs U nsm = Ok true.
   Proof.
-    intros H Hl. unfold spok_verify in *. cbn [with_subproofs pk_spok pk_rpe pk_pmi pk_rpmi].
+    intros H Hl1 Hl2 Hl. unfold spok_verify in *. cbn [with_subproofs pk_spok pk_rpe pk_pmi pk_rpmi].
     destruct (nisp5_verify (pk_spok p) ck pk bases rmsgs U nsm) as [b0| | |]; cbn [bind] in *; try discriminate.
     destruct b0; cbn [negb] in *; [|discriminate].
+    rewrite Hl1, Hl2, Nat.eqb_refl. cbn [andb negb].
+    destruct (negb _); [discriminate|].
     destruct (c_value (sp_Ce (pk_spok p)) =? bd_E (pk_rpe p)); [|discriminate].
     destruct (nthZ (ck_g ck) 0) as [g0| | |]; cbn [bind] in *; try discriminate.
     destruct (boudot_verify BP (pk_rpe p) g0 (ck_h ck) (ck_N ck) (min_e CS) (max_e CS)) as [b1| | |]; cbn [bind] in *; try discriminate.
@@ -79,12 +113,64 @@ Section T.
     destruct (nispm_verify (zk_msgs p) C pk bases (Some U)) as [bm| | |]; cbn [bind] in *; try discriminate.
     destruct bm; cbn [negb] in *; [|discriminate].
     clear H.
+    assert (Hlen : (Nat.eqb (length (zk_pmi q)) (length U) && Nat.eqb (length (zk_rpmi q)) (length U))%bool = true).
+    { destruct (match Ct', ck' with
+                | Some ct, Some k => let* tp := unwrap (zk_trusted q) in nisp2_verify tp C' ct pk bases k U
+                | _, _ => Ok true end) as [bt| | |]; cbn [bind] in Hq; try discriminate.
+      destruct bt; cbn [negb] in Hq; [|discriminate].
+      destruct (nispm_verify (zk_msgs q) C' pk bases (Some U)) as [bm| | |]; cbn [bind] in Hq; try discriminate.
+      destruct bm; cbn [negb] in Hq; [|discriminate].
+      destruct (Nat.eqb (length (zk_pmi q)) (length U) && Nat.eqb (length (zk_rpmi q)) (length U))%bool; [reflexivity|discriminate]. }
+    rewrite Hlen. cbn [negb].
     destruct (match Ct', ck' with
               | Some ct, Some k => let* tp := unwrap (zk_trusted q) in nisp2_verify tp C' ct pk bases k U
               | _, _ => Ok true end) as [bt| | |]; cbn [bind] in Hq; try discriminate.
     destruct bt; cbn [negb] in Hq; [|discriminate].
     destruct (nispm_verify (zk_msgs q) C' pk bases (Some U)) as [bm| | |]; cbn [bind] in Hq; try discriminate.
     destruct bm; cbn [negb] in Hq; [|discriminate].
-    exact Hq.
+    rewrite Hlen in Hq. cbn [negb] in Hq. exact Hq.
   Qed.
 End T.
+
+(* ---------------------------------------------------------------- F16: the same-secret response pins its secret *)
+(* a logged rand_int draw lies in the requested interval *)
+Definition int_ok (d : draw) : Prop := d_kind d = 3%N -> match d_params d with [a; b] => a <= d_val d <= b | _ => True end.
+
+Lemma zlist_eqb_eq : forall a b, zlist_eqb a b = true -> a = b.
+Proof.
+  induction a as [|x a IH]; intros [|y b] H; cbn in H; try discriminate; [reflexivity|].
+  apply andb_true_iff in H as [H1 H2]. apply Z.eqb_eq in H1. subst. f_equal. apply IH. exact H2.
+Qed.
+
+Lemma rand_int_ok a b ds v ds' : Forall int_ok ds -> rand_int a b ds = Ok (v, ds') -> a <= v <= b /\ Forall int_ok ds'.
+Proof.
+  intros Hd H. unfold rand_int in H. destruct (b <? a); [discriminate|]. unfold draw_req in H.
+  destruct ds as [|d rest]; [discriminate|]. destruct (N.eqb_spec (d_kind d) 3) as [Hk|]; [|discriminate].
+  destruct (zlist_eqb (d_params d) [a; b]) eqn:Ep; [|discriminate]. cbn [andb] in H. inversion H; subst.
+  inversion Hd as [|? ? Hd0 Hdr]; subst. split; [|exact Hdr]. specialize (Hd0 Hk).
+  apply zlist_eqb_eq in Ep. rewrite Ep in Hd0. exact Hd0.
+Qed.
+
+Section Leak.
+  Variable BP : bparams.
+
+  (* the first response of the same-secret proof is omega + c x with 1 <= omega < 2^(l+t) b: dividing by the (public) challenge
+     returns x up to omega / c -- with the 256-bit challenge the code uses and a secret x_1 of ~ T/2 + |width|/2 bits this is x_1 itself
+     (up to 2^(l+t) b / c), whatever the draws *)
+  Theorem same_secret_response_pins_x x r1 r2 g1 h1 g2 h2 b n ds p ds' :
+    Forall int_ok ds ->
+    proof_same_secret BP x r1 r2 g1 h1 g2 h2 b n ds = Ok (p, ds') ->
+    0 < ss_chal p ->
+    x <= ss_d p / ss_chal p <= x + (two (b_l BP + b_t BP) * b - 1) / ss_chal p.
+  Proof.
+    intros Hd H Hc. unfold proof_same_secret in H.
+    mstep H omega d1 Ho. mstep H mu1 d2 Hm1. mstep H mu2 d3 Hm2. mstep H w1 d4 Hw1. mstep H w2 d5 Hw2.
+    apply mret_ok in H as [-> _]. cbn [ss_d ss_chal] in *.
+    apply (rand_int_ok _ _ _ _ _ Hd) in Ho as [Hor _].
+    set (c := hash_int (str_cat [w1; w2])) in *.
+    replace (omega + c * x) with (omega + x * c) by ring. rewrite Z.div_add by lia.
+    split.
+    - assert (0 <= omega / c) by (apply Z.div_pos; lia). lia.
+    - assert (omega / c <= (two (b_l BP + b_t BP) * b - 1) / c) by (apply Z.div_le_mono; lia). lia.
+  Qed.
+End Leak.
